@@ -14,7 +14,7 @@ ASSUMPTIONS = [
 ]
 BOUNDS = {
     "quick": "count-min 1x1, 2x2, 3x2 (join: 1x1, 2x2); counting Bloom (est,fpr)->cells/hashes (1,.5)->2/1, (1,.3)->3/2, (2,.3)->6/2; export->load of a saturated state on the small geometries",
-    "thorough": "adds count-min 3x3 and counting Bloom (3,.2)->11/3",
+    "thorough": "adds count-min 3x3 and counting Bloom (3,.2)->11/3 for add/remove (union/intersection stay at <= 6 cells)",
     "outside": "larger geometries (the clamp code is per cell and independent of the geometry, but that is not decided here)",
 }
 EXPECT_LABELS = {"quick": ["cms-cell=clamp(spec)", "cms-total-clamped", "cms-return=check", "cms-exportable", "cms-join-cell=clamp(spec)",
@@ -197,5 +197,6 @@ def jobs(tier):
         for K in (1, 2):
             js.append({"h": "c16.cbf_remove", "cfg": {"est": est, "fpr": fpr, "K": K}, "opts": {"cost": est * 20 * K}})
         for op in ("union", "intersection"):
-            js.append({"h": "c16.cbf_merge", "cfg": {"est": est, "fpr": fpr, "op": op}, "opts": {"cost": est * 10}})
+            if est <= 2:        # intersection forks three ways per cell: 11 cells do not finish in 10 min
+                js.append({"h": "c16.cbf_merge", "cfg": {"est": est, "fpr": fpr, "op": op}, "opts": {"cost": est * 10}})
     return js
